@@ -859,7 +859,8 @@ class Lower:
         if name is None:
             key = self.member_stub_key(obj, me['name'])
             rkey = key + '->' + self.objtype(n)
-            name = self.stubs.get(key + '|' + self.qt(me)) or self.stubs.get(rkey) or self.stubs.get(key)
+            akey = key + '/%d' % len([a for a in ins[1:] if a.get('kind') != 'CXXDefaultArgExpr'])
+            name = self.stubs.get(key + '|' + self.qt(me)) or self.stubs.get(rkey) or self.stubs.get(akey) or self.stubs.get(key)
             if name is None:
                 label = self.ast.qname(tgt) if tgt is not None else key
                 x = self.default_call(label, n, ins[1:], objnode=obj, sig=self.qt(tgt) if tgt is not None else '')
@@ -979,7 +980,7 @@ class Lower:
                     else:
                         pt = ptypes[i] if i < len(ptypes) else ''
                     if self.is_ref(pt):
-                        x = self.addr(x)
+                        x = self.ref_arg(a, x)
                     argl.append(x)
                 isref = self.ret_of_sig(self.qt(r)).endswith('&') or n.get('valueCategory') == 'lvalue'
                 x = self.emit_call(st, argl, n, ref=isref)
@@ -1244,7 +1245,9 @@ class Lower:
         if self.try_stack:
             lbl, depth = self.try_stack[-1]
             return s + self.dtors(ind, len(self.scopes) - depth) + pad + 'goto %s; }\n' % lbl
-        return s + self.dtors(ind, len(self.scopes)) + self.line(th, pad) + pad + 'VS_REACH(%s);\n' % self.reach_label('throw') + pad + 'return %s; }\n' % self.zero()
+        eg = self.cur_spec.get('exit_ghost')
+        egs = (pad + eg + '\n') if eg and 'vs_ret' not in eg else ''
+        return s + self.dtors(ind, len(self.scopes)) + egs + self.line(th, pad) + pad + 'VS_REACH(%s);\n' % self.reach_label('throw') + pad + 'return %s; }\n' % self.zero()
 
     def try_stmt(self, n, ind):
         pad = '    ' * ind
@@ -1606,6 +1609,13 @@ class Lower:
     def member_init(self, lhs, fld, init):
         if init is None:
             return ''
+        if init.get('kind') == 'CXXDefaultInitExpr':
+            # the in-class initialiser of the field
+            fd = self.ast.byid.get(fld.get('id')) or fld
+            ins = [c for c in self.inner(fd)]
+            if not ins:
+                raise Abort('in-class initialiser of %s not found' % fld.get('name'))
+            init = ins[-1]
         core = init
         while core.get('kind') in ('ExprWithCleanups', 'MaterializeTemporaryExpr', 'CXXBindTemporaryExpr'):
             core = self.inner(core)[0]
